@@ -578,8 +578,7 @@ def main(run: core.Run) -> None:
     problems: list = []
     known_counts: Counter = Counter()
     findings = {f["id"] for f in run.open_findings()}
-    if not run.replay_path:
-        check_fixed_findings(run)
+    check_fixed_findings(run, probe=not run.replay_path)
 
     if run.replay_path:
         body = json.loads(open(run.replay_path).read())
@@ -732,41 +731,93 @@ def fingerprint_drift():
     return [f"{rel}:{q}" for rel, d in cur.items() for q, h in d.items() if rec.get(rel, {}).get(q) not in (None, h)]
 
 
-def probe_revisions():
-    """Behaviour of the working tree on the witnesses of the two fixed findings; returns (flags, replay cases)."""
-    def node(op, ins, outs=(None,)):
-        return {"dom": ["e", ""], "op": ["e", op], "aoa": None, "aoi": None, "check": None, "inputs": ins,
-                "attrs": [], "outputs": list(outs)}
+FLAG_IDS = ["C06-F1", "C06-F7a", "C06-F3", "C06-F7b", "C06-F8"]  # order of the digits in L.FLAGS
 
+
+def fixed_ids() -> set:
+    """ids in the `fixed` lists of known_findings (+ VERIF_C06_FIXED for trying a proposed fix on a worktree)"""
+    out = set()
+    for f in [core.VERIF / "known_findings.json"] + sorted((core.VERIF / "known_findings.d").glob("*.json")):
+        if f.exists():
+            out |= {e["id"] for e in json.loads(f.read_text()).get("fixed", []) if isinstance(e, dict) and "id" in e}
+    out |= {x for x in os.environ.get("VERIF_C06_FIXED", "").split(",") if x}
+    return out
+
+
+def _node(op, ins, outs=(None,), **kw):
+    d = {"dom": ["e", ""], "op": ["e", op], "aoa": None, "aoi": None, "check": None, "inputs": ins,
+         "attrs": [], "outputs": list(outs)}
+    d.update(kw)
+    return d
+
+
+def fixed_probes():
+    """witness and pre-fix behaviour of every finding that has a repair: id -> (case, kind, is_prefix(output))"""
     x = ["V", 1, "x", False, None]
     y = ["V", 2, "y", False, None]
-    g = {"nodes": [{"dom": "", "op": "D2", "ov": "", "inputs": [0], "attrs": [], "outputs": [1]}],
-         "outputs": [1], "consts": [], "foreign": [], "foreign_kind": "free", "ext": []}
-    p1 = {"cond": True, "inputs": ["x"], "nodes": [node("D2", [x], (None, None))], "outputs": [["O", 0, 0]]}
-    r1 = L.run_real(L.build_pattern(p1), L.build_graph(g), 0, False)
-    p2 = {"cond": True, "inputs": ["x", "y"],
-          "nodes": [node("Neg", [x]), node("Add", [["OR", 4, None, None, None, [["O", 0, 0], x]], y])],
-          "outputs": [["O", 1, 0]]}
-    r2 = L.run_real_commute(L.build_pattern(p2), L.build_graph(g), 0, False, True)
-    flags = ("0" if " M1" in r1 else "1") + ("0" if r2 == "ERR:valueerror" else "1")
-    c1 = {"pattern": p1, "graph": g, "root": 0, "rm": False, "commute": False}
-    c2 = {"pattern": p2, "graph": g, "root": 0, "rm": False, "commute": True}
-    return flags, (c1, c2), (r1, r2)
+    z = ["V", 3, "z", False, None]
+    g1 = {"nodes": [{"dom": "", "op": "D2", "ov": "", "inputs": [0], "attrs": [], "outputs": [1]}],
+          "outputs": [1], "consts": [], "foreign": [], "foreign_kind": "free", "ext": []}
+    gna = {"nodes": [{"dom": "", "op": "Neg", "ov": "", "inputs": [0], "attrs": [], "outputs": [1]},
+                     {"dom": "", "op": "Add", "ov": "", "inputs": [1, 1], "attrs": [], "outputs": [2]}],
+           "outputs": [2], "consts": [], "foreign": [], "foreign_kind": "free", "ext": []}
+    gr = {"nodes": [{"dom": "", "op": "R", "ov": "", "inputs": [0], "attrs": [["axes", "is", [1]]], "outputs": [1]}],
+          "outputs": [1], "consts": [], "foreign": [], "foreign_kind": "free", "ext": []}
+    orx = ["OR", 4, None, None, None, [["O", 0, 0], x]]
+
+    def case(p, g, root, commute=False):
+        return {"pattern": p, "graph": g, "root": root, "rm": False, "commute": commute}
+
+    def pat(nodes, ins, out):
+        return {"cond": True, "inputs": ins, "nodes": nodes, "outputs": [out]}
+
+    f8 = None
+    if CORPUS.exists():
+        for l in CORPUS.read_text().splitlines():
+            if l.strip() and json.loads(l).get("finding") == "C06-F8":
+                f8 = json.loads(l)
+    probes = {
+        "C06-F1": (case(pat([_node("D2", [x], (None, None))], ["x"], ["O", 0, 0]), g1, 0), "match", lambda o: " M1" in o),
+        "C06-F7a": (case(pat([_node("Neg", [x]), _node("Add", [orx, y])], ["x", "y"], ["O", 1, 0]), g1, 0, True),
+                    "commute", lambda o: o == "ERR:valueerror"),
+        "C06-F2": (case(pat([_node("Neg", [["V", 1, "x", False, False]])], ["x"], ["O", 0, 0]), gna, 0), "match",
+                   lambda o: " M1" in o),
+        "C06-F3": (case(pat([_node("Neg", [x], check=False), _node("Add", [orx, z])], ["x", "z"], ["O", 1, 0]), gna, 1),
+                   "match", lambda o: " M1" in o),
+        "C06-F6": (case(pat([_node("R", [x], attrs=[["axes", ["c", 1]]])], ["x"], ["O", 0, 0]), gr, 0), "match",
+                   lambda o: "EXC:TypeError" in o),
+        "C06-F7b": (case(pat([_node("Max", [x, y, z])], ["x", "y", "z"], ["O", 0, 0]), g1, 0, True), "commute",
+                    lambda o: o == "ERR:assertion"),
+    }
+    if f8 is not None:
+        probes["C06-F8"] = (f8, "match", lambda o: "EXC:ValueError" in o)
+    return probes
 
 
-def check_fixed_findings(run) -> None:
-    """A fixed entry suppresses nothing: the model is pinned to the repaired revision (L.FLAGS = "11"); if the
-    working tree shows the pre-fix behaviour of a finding listed as fixed, that is a violation with its witness."""
-    flags, cases, outs = probe_revisions()
-    run.coverage["fixed_findings_probe"] = {"F1_repaired": flags[0] == "1", "F7a_repaired": flags[1] == "1"}
-    if flags[0] != "1":
-        run.violation({"case": cases[0], "detail": outs[0], "finding": "C06-F1 (fixed by 778bd07)"},
-                      "fixed finding C06-F1 is back: a pattern node with more outputs than the node is reported as a "
-                      f"match without outputs: {outs[0]}")
-    if flags[1] != "1":
-        run.violation({"case": cases[1], "detail": outs[1], "finding": "C06-F7a (fixed by e372708)"},
-                      "fixed finding C06-F7a is back: GraphPattern.commute() raises ValueError for a BacktrackingOr "
-                      f"without tag_var: {outs[1]}")
+def run_probe(case, kind) -> str:
+    bp, bg = L.build_pattern(case["pattern"]), L.build_graph(case["graph"])
+    if kind == "commute":
+        return L.run_real_commute(bp, bg, case["root"], case["rm"], True)
+    return L.run_real(bp, bg, case["root"], case["rm"])
+
+
+def check_fixed_findings(run, probe: bool = True) -> None:
+    """A fixed entry suppresses nothing: the model restates the repaired revision of every finding listed as fixed
+    (L.FLAGS); if the working tree shows the pre-fix behaviour of such a finding, that is a violation with its witness."""
+    fixed = fixed_ids()
+    L.FLAGS = "".join("1" if i in fixed else "0" for i in FLAG_IDS)
+    G.ALLOW_SCALAR_VS_LIST_ATTR = "C06-F6" in fixed
+    report = {}
+    for fid, (case, kind, is_prefix) in fixed_probes().items():
+        if fid not in fixed or not probe:
+            continue
+        out = run_probe(case, kind)
+        report[fid] = "repaired" if not is_prefix(out) else "PRE-FIX BEHAVIOUR"
+        if is_prefix(out):
+            run.violation({"case": case, "detail": out, "finding": fid + " (listed as fixed)"},
+                          f"fixed finding {fid} is back: {out[:200]}")
+    run.coverage["fixed_findings_probe"] = report
+    run.coverage["model_revision_flags"] = dict(zip(FLAG_IDS, L.FLAGS))
 
 
 def special_witnesses(run, findings):
